@@ -193,6 +193,14 @@ func main() {
 		if _, err := muxdrv.Run(*in, *out, *seed, *skip); err != nil {
 			fail(err)
 		}
+	case "muxtable":
+		fs := flag.NewFlagSet(mod, flag.ExitOnError)
+		in := fs.String("in", "", "scenarios")
+		out := fs.String("out", "", "trace file")
+		fs.Parse(args)
+		if err := muxdrv.RunTable(*in, *out); err != nil {
+			fail(err)
+		}
 	case "mux-gen":
 		fs := flag.NewFlagSet(mod, flag.ExitOnError)
 		out := fs.String("out", "", "scenario file")
